@@ -117,6 +117,7 @@ structure McSt where
   cbs : List (List String) := []
   sys : Option Sys := none                  -- built lazily at the first run
   collected : List Sys := []
+  collectedRef : List Sys := []             -- collected states of the reference variant's run (refenum only)
   cfg : Cfg := {}
   runs : Nat := 0
   dead : Bool := false
